@@ -420,6 +420,16 @@ def part_walk(ctx):
     ctx.floor("R-WALK", "in-place ring walks", n + len([b for b in ctx.brokens if b["rule"] == "R-WALK"]), 2)
 
 
+def part_family(ctx):
+    from . import rules_compact
+    n = rules_compact.check(ctx, module(CFG[0], "ssa"), CFG[0])
+    ctx.explanation += ("R-FAMILY: every site of compactCells that reads the child counter in the reserved bits is explored for all reachable counter values and both answers of "
+                        "isPentagon(parent): duplicates are reported exactly when one more child would exceed the family (7, pentagon 6), a parent is collected exactly when "
+                        "its family is complete, the lookup drops exactly the children of collected parents; a copy from a work list to the output that skips this "
+                        "classification moves at most 5 cells. ")
+    ctx.floor("R-FAMILY", "counter sites and bulk copies of compactCells", n, 4)
+
+
 def part_unitvec(ctx):
     from . import rules_unitvec
     n = rules_unitvec.check(ctx, module(CFG[0], "ssa"), CFG[0])
@@ -452,7 +462,7 @@ PARTS = {
     "C03": [part_guards("C03"), part_argmin, part_bitprov("validity"), part_bitprov("indexops", "C03"), part_tables(["T7", "T4", "T5", "T9", "T19", "T21"], {"T7": ["isBaseCellPentagonArr", "pentagonCount", "res0CellCount", "getRes0Cells", "getPentagons", "baseCellNeighbors:rows", "baseCellNeighbor60CCWRots:rows"]}, pid="C03"), part_cform("C03"), part_wit("C03")],
     "C04": [part_guards("C04"), part_errflow("C04"), part_bitprov("indexops", "C04"), part_drain(["cellToChildren"]), part_cform("C04"), part_tables(["T7"], {"T7": ["isBaseCellPentagonArr"]}, pid="C04"), part_wit("C04")],
     "C05": [part_guards("C05"), part_errflow("C05"), part_bitprov("indexops", "C05"), part_tables(["T1", "T2", "T3", "T10", "T11", "T7", "T19"], {"T7": ["baseCellNeighbors", "baseCellNeighbor60CCWRots"]}, pid="C05"), part_cform("C05"), part_walk, part_hashmod("C05", 1), part_wit("C05")],
-    "C06": [part_guards("C06"), part_errflow("C06"), part_bitprov("indexops", "C06"), part_drain(["uncompactCells"]), part_bw("C06"), part_cform("C06"), part_hashmod("C06", 2)],
+    "C06": [part_guards("C06"), part_errflow("C06"), part_bitprov("indexops", "C06"), part_drain(["uncompactCells"]), part_bw("C06"), part_cform("C06"), part_hashmod("C06", 2), part_family],
     "C08": [part_fold("C08"), part_tables(["T5", "T9", "T13"], pid="C08"), part_cform("C08"), part_wit("C08")],
     "C09": [part_guards("C09"), part_errflow("C09"), part_bitprov("indexops", "C09"), part_tables(["T1", "T2", "T3", "T10", "T14", "T20", "T21", "T22"], pid="C09"), part_ovf, part_unitvec, part_wit("C09")],
     "C10": [part_guards("C10"), part_errflow("C10"), part_bitprov("indexops", "C10"), part_tables(["T8", "T12"], pid="C10"), part_cform("C10"), part_fold("C10"), part_wit("C10")],
